@@ -1518,3 +1518,109 @@ func Format(fset *token.FileSet, f *ast.File) string {
 }
 
 func readFile(name string) ([]byte, error) { return osReadFile(name) }
+
+// PinLocals keeps the scanner's mutable position in memory: go/ssa promotes a local that is not captured
+// by a closure to SSA registers, while the scanner rules model the position as a memory cell (which it
+// is on the pinned tree, where closures capture it). For the named functions, every int local declared
+// in the top-level statement list of the body that is assigned again later gets a no-op closure that
+// reads it (`_ = func() { _ = v }`) right after its declaration, so that it stays a cell. Behaviour is
+// not changed (the closure is never called) and the overlay is only used for analysis.
+func PinLocals(p *load.Program, name func(*ssa.Function) string, overlay map[string][]byte, funcs map[string]bool) (map[string][]byte, []string) {
+	out := map[string][]byte{}
+	var notes []string
+	src := func(file string) []byte {
+		if b, ok := overlay[file]; ok {
+			return b
+		}
+		b, _ := readFile(file)
+		return b
+	}
+	for _, pk := range p.Closure {
+		for _, f := range pk.Syntax {
+			for _, d := range f.Decls {
+				fd, ok := d.(*ast.FuncDecl)
+				if !ok || fd.Body == nil {
+					continue
+				}
+				obj, _ := pk.TypesInfo.Defs[fd.Name].(*types.Func)
+				if obj == nil {
+					continue
+				}
+				sf := p.SSA.FuncValue(obj)
+				if sf == nil || !funcs[name(sf)] {
+					continue
+				}
+				// variables assigned somewhere in the body
+				assigned := map[types.Object]bool{}
+				ast.Inspect(fd.Body, func(n ast.Node) bool {
+					switch x := n.(type) {
+					case *ast.IncDecStmt:
+						if id, ok := x.X.(*ast.Ident); ok {
+							assigned[pk.TypesInfo.Uses[id]] = true
+						}
+					case *ast.AssignStmt:
+						if x.Tok != token.DEFINE {
+							for _, l := range x.Lhs {
+								if id, ok := l.(*ast.Ident); ok {
+									assigned[pk.TypesInfo.Uses[id]] = true
+								}
+							}
+						}
+					}
+					return true
+				})
+				type ins struct {
+					off  int
+					text string
+				}
+				var inserts []ins
+				for _, st := range fd.Body.List {
+					var ids []*ast.Ident
+					switch x := st.(type) {
+					case *ast.AssignStmt:
+						if x.Tok == token.DEFINE {
+							for _, l := range x.Lhs {
+								if id, ok := l.(*ast.Ident); ok {
+									ids = append(ids, id)
+								}
+							}
+						}
+					case *ast.DeclStmt:
+						if gd, ok := x.Decl.(*ast.GenDecl); ok && gd.Tok == token.VAR {
+							for _, sp := range gd.Specs {
+								if vs, ok := sp.(*ast.ValueSpec); ok {
+									ids = append(ids, vs.Names...)
+								}
+							}
+						}
+					}
+					for _, id := range ids {
+						o := pk.TypesInfo.Defs[id]
+						if o == nil || id.Name == "_" || !assigned[o] {
+							continue
+						}
+						if b, ok := o.Type().Underlying().(*types.Basic); !ok || b.Kind() != types.Int {
+							continue
+						}
+						inserts = append(inserts, ins{p.Fset.Position(st.End()).Offset, "\n_ = func() { _ = " + id.Name + " }\n"})
+						notes = append(notes, "pinned local "+id.Name+" of "+name(sf)+" in memory (analysis only)")
+					}
+				}
+				if len(inserts) == 0 {
+					continue
+				}
+				file := p.Fset.Position(fd.Pos()).Filename
+				b := append([]byte(nil), src(file)...)
+				sort.Slice(inserts, func(i, j int) bool { return inserts[i].off > inserts[j].off })
+				for _, in := range inserts {
+					if in.off < 0 || in.off > len(b) {
+						continue
+					}
+					b = append(b[:in.off], append([]byte(in.text), b[in.off:]...)...)
+				}
+				out[file] = b
+			}
+		}
+	}
+	return out, notes
+}
